@@ -47,58 +47,58 @@ func Specs() map[string]*PropSpec {
 		Rules:       []RuleRef{registeredRule("set", "get", "mset", "mget", "setnx", "setex", "append", "strlen", "getrange", "setrange", "incr", "decr", "incrby", "decrby", "incrbyfloat", "del", "exists", "type", "rename", "keys", "ping"), rR9, rR7, rR1, rR19, rR19w, rR25, rR27, rR15r, rR17, rR9s, rR29, rR30, rR14pair, rR14order, rR22w, rR31, rR20m, rR9m, rR32, rR30g, rR22m, rR20k, rR9k, rR11e, rR15, rR15m, rR13}})
 	add(&PropSpec{ID: "C02", Files: []string{"resp/", "server/db_manager.go", "logger/"},
 		Explanation: "Parser robustness and identity, decided on all paths: every index/slice in the parser is proven in range (R1) and every allocation sized from the wire is bounded (R4), so no byte stream can panic the parser goroutine; the connection is consumed only through complete-read primitives and the parser resets after an error (R11); bulk payloads are unmodified sub-slices cut by count (R9p); a protocol error closes the connection without dispatching anything and only well-formed arrays are dispatched (R12c). Exact decode equality for all chunkings is not decided. The parser closes its result channel only after the end-of-stream report or on a done context (R11c).",
-		Rules:       []RuleRef{rR1, rR4, rR11, rR9p, rR12c, rR11c, rR11m, rR31, rR11t, rR5, rR14pair, rR11d}})
+		Rules:       []RuleRef{rR1, rR4, rR11, rR9p, rR12c, rR11c, rR11m, rR31, rR11t, rR5, rR14pair, rR11d, rR11z}})
 	add(&PropSpec{ID: "C03", Files: []string{"resp/", "server/", "memdb/"},
 		Explanation: "Reply framing decided on all paths: exactly one conn.Write per extracted command on every path of both connection loops, never from a goroutine, executors never write their conn (R8); line-framed reply constructors receive constant/numeric text or sanitise CR/LF centrally, payloads use bulk strings, encoder headers are len() of what is emitted (R13); encoders return fresh memory (R13p); every executor path returns a non-nil reply (R7). The content of replies is not decided. Once a write deadline is armed on client connections a failed reply write must end the connection, since the reply may have been written in part (R8d). A client connection is never wrapped as an io.Writer: one message, one Write (R8w).",
-		Rules:       []RuleRef{rR8, rR13, rR13p, rR7, rR12c, rR8d, rR8w, rR31, rR23u, rR14pair, rR9v, rR8m, rR11c, rR9q, rR23c}})
+		Rules:       []RuleRef{rR8, rR13, rR13p, rR7, rR12c, rR8d, rR8w, rR31, rR23u, rR14pair, rR9v, rR8m, rR11c, rR9q, rR23c, rR11z}})
 	add(&PropSpec{ID: "C04", Files: []string{"server/", "resp/", "memdb/", "util/", "logger/", "config/"},
 		Explanation: "Catalogue of crash/wedge sources on request-reachable first-party code, each instance an obligation: index/slice bounds (R1: compiler prove pass or the SSA difference prover), nil dereference after an inconsistent test (R2), unchecked type assertions (R3), client-sized allocations (R4), explicit process exits (R5), lock pairing on all exits (R14p), no stripe acquired twice by one goroutine and sorted de-duplicated multi-key acquisition (R14o, R15m: a self-deadlock wedges the stripe for every later client), blocking executors kept out of the apply loop (R18), protocol errors contained (R12c). Termination of value-dependent loops and timing are not decided.",
 		Rules:       []RuleRef{rR1, rR2, rR3, rR4, rR5, rR14pair, rR14order, rR15m, rR18, rR12c, rR22m, rR11c, rR17x, rR6c}})
 	add(&PropSpec{ID: "C05", Files: []string{"memdb/", "util/"},
 		Explanation: "The locking protocol that single-key linearizability rests on, decided for every path: the key's stripe is held (write mode for writes and mutators) at every keyspace and container access (R15); a value written from a read lies in the same hold (R15r); every acquire is released on all exits (R14p); the atomic key counter is never accessed plainly and never sizes a result (R6); subscriber tables and the lazy-expiry decision are guarded (R17). Linearizability of recorded histories is not decided. Stored strings are immutable, because readers serialise them after the lock was released (R9s); the key counter and the subscriber counter mirror their tables entry by entry (R20n). The stripe table is built once and indexed purely (R15m); a container stored under one key is not shared with another (R26); bytes held by containers are immutable (R9v).",
-		Rules:       []RuleRef{rR15, rR15r, rR14pair, rR6, rR17, rR9s, rR20n, rR20m, rR6w, rR15m, rR26, rR9v, rR9w, rR30g, rR17x, rR6c, rR19a, rR9q, rR14order}})
+		Rules:       []RuleRef{rR15, rR15r, rR14pair, rR6, rR17, rR9s, rR20n, rR20m, rR6w, rR15m, rR26, rR9v, rR9w, rR30g, rR17x, rR6c, rR19a, rR9q, rR14order, rR15l, rR20x}})
 	add(&PropSpec{ID: "C06", Files: []string{"memdb/"},
 		Explanation: "Lazy expiry decided structurally: every observation of a key is dominated by CheckTTL on the same key, KEYS filters candidates through it (R21); key removal and overwrite are paired with deadline removal, KEEPTTL excepted (R22); the expiry routine deletes only on a deadline re-read under the key's stripe (R17). Clock arithmetic is not decided; of the EXPIRE options only the structure is (which lookup outcome and which comparison each arm passes before it installs a deadline, R22e), not the values compared.",
-		Rules:       []RuleRef{rR21, rR22, rR22d, rR22w, rR22o, rR17, rR24u, rR22e, rR22m, rR14pair, rR25}})
-	add(&PropSpec{ID: "C07", Files: []string{"server/", "raftexample/", "memdb/"},
+		Rules:       []RuleRef{rR21, rR22, rR22d, rR22w, rR22o, rR17, rR24u, rR22e, rR22m, rR14pair, rR25, rR15}})
+	add(&PropSpec{ID: "C07", Files: []string{"server/", "raftexample/", "memdb/", "etcd/server/storage/wal/wal.go"},
 		Explanation: "Cluster-mode structure: connection goroutines reach the state machine only by proposing (R23) with globally unique proposal ids (R23u); the rendezvous table is mutex-guarded (R17cb); the Ready loop persists before it sends/publishes and ends in Advance, the apply loop executes before it acknowledges (R16r); blocking or connection-using executors are filtered (R18); nondeterministic inputs to replicated state and exits on the raft path are enumerated (R24, R5: known findings); bounds on the cluster path (R1). Linearizability and agreement at run time are not decided. A proposal is sent once per command (R23p); restart hands every WAL entry to the storage and picks a snapshot the WAL vouches for (R16x).",
-		Rules:       []RuleRef{rR23, rR23u, rR17cb, rR16r, rR18, rR24, rR5, boundsRule("R1c", []string{"server", "raftexample"}, nil, 4), rR23p, rR16x, rR16e, rR16f, rR18c, rR20cs, rR16y, rR23a, rR16o, rR10j, rR23r, rR23c, rR16k, rR16u}})
+		Rules:       []RuleRef{rR23, rR23u, rR17cb, rR16r, rR18, rR24, rR5, boundsRule("R1c", []string{"server", "raftexample"}, nil, 4), rR23p, rR16x, rR16e, rR16f, rR18c, rR20cs, rR16y, rR23a, rR16o, rR10j, rR23r, rR23c, rR16k, rR16u, rR16i, rR16j, rR16l, rR16b}})
 	add(&PropSpec{ID: "C08", Files: []string{"raftexample/", "memdb/db.go", "server/", "etcd/"},
 		Explanation: "Durability structure: persist-before-send/publish/acknowledge on every path of the Ready loop (R16r) with the WAL's own durability points underneath (R16w); snapshot constants agree so that a snapshot after a restart cannot panic (R16c); a torn tail is repaired on reopen (R12s); the snapshot encoder's ability to represent stored types and the existence of a restore path are checked and are known findings today (R24). Recovery equality over crash points is not decided. Restart hands every WAL entry to the storage and picks a snapshot the WAL vouches for (R16x); proposal ids are unique across nodes and restarts (R23u).",
-		Rules:       []RuleRef{rR16r, rR16w, rR16c, rR12s, rR24, rR5, rR16x, rR23u, rR24u, rR23, rR16u, rR16y, rR16d, rR16k}})
+		Rules:       []RuleRef{rR16r, rR16w, rR16c, rR12s, rR24, rR5, rR16x, rR23u, rR24u, rR23, rR16u, rR16y, rR16d, rR16k, rR16i, rR16j, rR16l, rR16b}})
 	add(&PropSpec{ID: "C09", Files: []string{"memdb/list.go", "memdb/list_struct.go", "memdb/db.go", "memdb/dblock.go"},
 		Explanation: "List bookkeeping decided on all paths of the list code: link/unlink events are paired with List.Len updates (R20a); an emptied list is deleted (R20b); accesses and mutations hold the key's write stripe and pops stay in one hold (R15, R15r); LMOVE-style aliasing of the two keys is safe (R25); bounds, replies, identity, error-implies-unchanged (R1, R7, R9, R27); commands registered (R0). Order/multiplicity/index semantics are not decided. Option values an executor parses into a local record are read afterwards (R29). Lazy expiry and deadline removal of the shared keyspace helpers (R21, R22); list element bytes are immutable (R9v).",
 		Rules:       []RuleRef{registeredRule("lpush", "rpush", "lpushx", "rpushx", "lpop", "rpop", "llen", "lindex", "lrange", "lset", "lrem", "ltrim", "lpos", "lmove", "blpop", "brpop"), rR20a, rR20b, rR15, rR15r, rR25, rR1, rR7, rR9, rR27, rR29, rR21, rR22, rR22d, rR22w, rR9v, rR9m, rR32, rR9w, rR14pair, rR20g, rR11e, rR15m}})
 	add(&PropSpec{ID: "C10", Files: []string{"memdb/hash.go", "memdb/hash_struct.go", "memdb/db.go"},
 		Explanation: "Hash structure decided on all paths of the hash code: absence is decided by map membership, never by an empty-value sentinel (R20c); HINCRBY is overflow-guarded (R19); an emptied hash is deleted (R20b); field/value bytes reach the map unchanged and copies keep empty values non-nil (R9); locks, bounds, replies, error-implies-unchanged (R15, R1, R7, R27); commands registered (R0). Map contents against a model are not decided. Option values an executor parses into a local record are read afterwards (R29). Lazy expiry and deadline removal of the shared keyspace helpers (R21, R22); hash value bytes are immutable (R9v).",
-		Rules:       []RuleRef{registeredRule("hset", "hsetnx", "hget", "hmget", "hgetall", "hkeys", "hvals", "hlen", "hexists", "hstrlen", "hdel", "hincrby", "hincrbyfloat", "hrandfield"), rR20c, rR19, rR20b, rR9, rR15, rR1, rR7, rR27, rR29, rR21, rR22, rR22d, rR22w, rR9v, rR32, rR9w, rR14pair, rR9q, rR11e}})
+		Rules:       []RuleRef{registeredRule("hset", "hsetnx", "hget", "hmget", "hgetall", "hkeys", "hvals", "hlen", "hexists", "hstrlen", "hdel", "hincrby", "hincrbyfloat", "hrandfield"), rR20c, rR19, rR20b, rR9, rR15, rR1, rR7, rR27, rR29, rR21, rR22, rR22d, rR22w, rR9v, rR32, rR9w, rR14pair, rR9q, rR11e, rR20x}})
 	add(&PropSpec{ID: "C11", Files: []string{"memdb/sets.go", "memdb/sets_struct.go", "memdb/db.go"},
 		Explanation: "Set structure decided on all paths of the set code: STORE forms write or delete the destination on every success path (R20d) and never store an object shared with a source key (R26); emptied sets are deleted (R20b); exhaustion/absence is not decided by a sentinel (R20c); SMOVE-style aliasing is safe (R25); client-sized allocations bounded (R4); locks, bounds, replies (R15, R1, R7); commands registered (R0). That results equal the mathematical set algebra is not decided. Option values an executor parses into a local record are read afterwards (R29). Lazy expiry and deadline removal of the shared keyspace helpers (R21, R22). A rejected set command has changed nothing (R27).",
-		Rules:       []RuleRef{registeredRule("sadd", "srem", "sismember", "scard", "smembers", "smove", "spop", "srandmember", "sunion", "sinter", "sdiff", "sunionstore", "sinterstore", "sdiffstore"), rR20d, rR26, rR20b, rR20c, rR25, rR4, rR15, rR1, rR7, rR29, rR21, rR22, rR22d, rR22w, rR27, rR32, rR9w, rR20k, rR14pair, rR11e}})
+		Rules:       []RuleRef{registeredRule("sadd", "srem", "sismember", "scard", "smembers", "smove", "spop", "srandmember", "sunion", "sinter", "sdiff", "sunionstore", "sinterstore", "sdiffstore"), rR20d, rR26, rR20b, rR20c, rR25, rR4, rR15, rR1, rR7, rR29, rR21, rR22, rR22d, rR22w, rR27, rR32, rR9w, rR20k, rR14pair, rR11e, rR15l}})
 	add(&PropSpec{ID: "C12", Files: []string{"memdb/sorted_set.go", "memdb/sorted_set_struct.go", "memdb/btree.go", "memdb/db.go"},
 		Explanation: "Only the structural fringe of the sorted-set property is decided: key/member identity (R9), nil-after-check (R2), bounds (R1), a reply on every path (R7), lock discipline (R15), rejected commands change nothing (R27), emptied key deleted (R20b), size bookkeeping not double-counted by recursion and a comparator on the raw scores (R20t), commands registered (R0). BST order, AVL balance, size/index agreement, rank and score-mate handling are inductive shape invariants and are NOT decided by this family. Option values an executor parses into a local record are read afterwards (R29). Lazy expiry and deadline removal of the shared keyspace helpers (R21, R22).",
 		Rules:       []RuleRef{registeredRule("zadd", "zrem", "zrange", "zrank"), rR9, rR2, rR1, rR7, rR15, rR27, rR20b, rR20t, rR29, rR20v, rR20z, rR21, rR22, rR22d, rR22w, rR32, rR9w, rR14pair, rR20h, rR11e}})
 	add(&PropSpec{ID: "C13", Files: []string{"memdb/"},
 		Explanation: "Static deadlock-freedom argument for the stripe locks over all schedules and key sets: pairing on all exits (R14p); the lock-class graph is acyclic, no stripe is acquired (directly or through a callee such as CheckTTL) while one is held, nothing blocks under a stripe (R14o); the *Multi helpers acquire sorted, de-duplicated stripe positions (R15m). Atomicity, structural part: every access of the multi-key commands lies inside one LockMulti hold covering its key (R15, R15r) and aliasing keys are safe (R25); a multi-key command that replies with an error has changed none of its keys (R27). Observed atomicity of histories is not decided.",
-		Rules:       []RuleRef{rR14pair, rR14order, rR15m, rR15, rR15r, rR25, rR27, rR15a, rR6c, rR17}})
+		Rules:       []RuleRef{rR14pair, rR14order, rR15m, rR15, rR15r, rR25, rR27, rR15a, rR6c, rR17, rR15l}})
 	add(&PropSpec{ID: "C14", Files: []string{"server/", "raftexample/", "resp/", "memdb/pubsub.go", "memdb/list.go"},
 		Explanation: "The replicated log carries commands unaltered, structurally: [][]byte carrier filled from ToCommand and handed to the same dispatcher unchanged (R10); proposed bytes are a fresh encoding (R10b); the cluster handler executes locally only in the rconf arm so that reads and SELECT see one state (R23); blocking/conn executors are filtered (R18). Reply equality with a standalone server for all inputs is not decided. The filter chain passes the argument vector through unchanged or rejects it (R10f); proposal ids that route replies are globally unique (R23u). A proposal is sent once per command (R23p); the proposal codec is encoding/json on both sides (R16x).",
-		Rules:       []RuleRef{rR10, rR10b, rR23, rR18, rR10f, rR23u, rR23p, rR16x, rR16e, rR16f, rR10t, rR16r, rR18c, rR20cs, rR16y, rR23a, rR10j, rR23r, rR10u, rR16o, rR23c}})
+		Rules:       []RuleRef{rR10, rR10b, rR23, rR18, rR10f, rR23u, rR23p, rR16x, rR16e, rR16f, rR10t, rR16r, rR18c, rR20cs, rR16y, rR23a, rR10j, rR23r, rR10u, rR16o, rR23c, rR16l, rR16b}})
 	add(&PropSpec{ID: "C15", Files: []string{"etcd/raft/"},
 		Explanation: "Guard dominance and writer sets that pin the mechanisms named by the property's anchors in the Raft library (R16g): deleting or weakening one of these tests is caught although the scripted raft tests may still pass. Election safety, log matching, leader completeness and state-machine safety themselves are invariants over all reachable states of a distributed protocol and are NOT decided. Guards of in-loop state updates are evaluated afresh in every iteration (R28: no check hoisted out of a loop that changes what is checked). Match grows only on the follower's own append response; prevHardSt is written where a Ready is accepted (R16h).",
-		Rules:       []RuleRef{rR16g, rR28, rR16h, rR16q, rR16u, rR16v, rR16z, rR16m, rR16k}})
+		Rules:       []RuleRef{rR16g, rR28, rR16h, rR16q, rR16u, rR16v, rR16z, rR16m, rR16k, rR16aa}})
 	add(&PropSpec{ID: "C16", Files: []string{"etcd/", "raftexample/"},
 		Explanation: "Durability points and validation-before-hand-out in the WAL and snapshot code, as must-pass-through obligations on the success subgraph (R16w), plus torn-tail repair on reopen in the embedding application (R12s). The behaviour for each subset of lost sectors and each corrupted byte is an enumeration over file contents and is not decided; the checks only guarantee that the guards exist on every path. Every WAL scanner recognises the torn-tail report (R16t); the restart snapshot is one the WAL vouches for (R16x).",
-		Rules:       []RuleRef{rR16w, rR12s, rR16t, rR16x, rR16s, rR16p, rR16a, rR16n, rR16d}})
+		Rules:       []RuleRef{rR16w, rR12s, rR16t, rR16x, rR16s, rR16p, rR16a, rR16n, rR16d, rR16r, rR16j}})
 	add(&PropSpec{ID: "C17", Files: []string{"util/util.go", "memdb/keys.go", "memdb/concurrentmap.go"},
 		Explanation: "'Matching always terminates and never crashes' is decided for every pattern and key: all index/slice sites of the matcher are proven in range (R1) and every recursive call strictly shrinks the pattern (R1t). KEYS hands the client's pattern unchanged to the matcher, returns only keys that passed it (R9k) and that passed lazy expiry (R21); the key listing is not sized from the racy counter (R6). Conformance of the match results to the grammar is not decided. The matcher is byte-wise: no text library in PattenMatch or its helpers (R17b).",
-		Rules:       []RuleRef{rR1, rR1t, rR9k, rR21, rR6, rR17b, rR17s, rR17m, rR17c, rR17k, rR14pair, rR11e}})
+		Rules:       []RuleRef{rR1, rR1t, rR9k, rR21, rR6, rR17b, rR17s, rR17m, rR17c, rR17k, rR14pair, rR11e, rR20m, rR20n}})
 	add(&PropSpec{ID: "C18", Files: []string{"memdb/stream.go", "memdb/stream_struct.go"},
 		Explanation: "Stream structure: XRANGE has no write effect (R11e) and replies on every path (R7); XADD's option scanner is in bounds (R1); a rejected XADD changes nothing and AddEntry stores nothing when it fails (R27); lock discipline (R15); identity of fields (R9); commands registered (R0). Strict ID monotonicity and range arithmetic are value-level and not decided. Sequence parts of two IDs are compared only where their time parts are equal (R18l: lexicographic order); the auto marker -1 never reaches a stored ID (R18s); option values parsed into a local record are read afterwards (R29).",
-		Rules:       []RuleRef{registeredRule("xadd", "xrange"), rR11e, rR7, rR1, rR27, rR15, rR9, rR18l, rR18s, rR29, rR32, rR9w, rR31, rR18i, rR14pair}})
+		Rules:       []RuleRef{registeredRule("xadd", "xrange"), rR11e, rR7, rR1, rR27, rR15, rR9, rR18l, rR18s, rR29, rR32, rR9w, rR31, rR18i, rR14pair, rR18d}})
 	add(&PropSpec{ID: "C19", Files: []string{"memdb/pubsub.go", "memdb/pubsub_struct.go", "server/", "resp/"},
 		Explanation: "Pub/Sub table discipline on all paths: Chan.conns/numSubs only under Chan.rw, ChanMap.item lookup-then-update only under ChanMap.rw (R17); no blocking call while a table lock is held (R14b); unchecked assertions on the channel table agree with its writers (R3); both commands are kept out of the replicated log (R18). Exactly-once in-order delivery is not decided. The subscriber counter moves only together with its table, one entry at a time, on a tested presence/absence (R20n). One message, one Write on a subscriber connection (R8w).",
-		Rules:       []RuleRef{rR17, rR14b, rR3, rR18, rR20n, rR20m, rR8w, rR19g, rR18c, rR32, rR8d, rR19a, rR11c, rR8m, rR8, rR31}})
+		Rules:       []RuleRef{rR17, rR14b, rR3, rR18, rR20n, rR20m, rR8w, rR19g, rR18c, rR32, rR8d, rR19a, rR11c, rR8m, rR8, rR31, rR9p}})
 	add(&PropSpec{ID: "C20", Files: []string{"server/", "config/", "memdb/"},
 		Explanation: "Database selection structure: no connection-reachable code writes shared Manager state, executors run against the calling connection's own selection, every slot is a distinct MemDb (R23s); the selection store is dominated by exact range tests (R20s, with the bounds prover); cluster mode forces one database after the config file was applied (R20s). Isolation as observed over interleavings is not decided. Every connection state handed out has its database set on the way (R20i).",
 		Rules:       []RuleRef{rR23s, rR20s, rR20i, rR6w, rR20o, rR20q, rR20cs, rR20e, rR20g, rR26, rR12c}})
